@@ -1,16 +1,929 @@
 package main
 
-// Replay of solver models against the real code through `go test -overlay`.
+// Replay: confirming a failed postcondition on the real code.
+//
+// Candidate inputs come from the solver's model (when it gives one) or from a small type-driven
+// enumeration. An in-package Go test, injected with `go test -overlay` (nothing is written into /repo),
+// calls the real function on each candidate and prints its results as SMT terms. The clause is then
+// re-evaluated by the solver on (inputs, observed outputs): if it is false there, the violation is
+// confirmed with a concrete failing input.
+//
+// Replayable: functions whose parameters are values (basic types, structs of basic types, slices of those)
+// or pointers to repository structs that the function only reads (contract `modifies nothing`).
+
+import (
+	"bytes"
+	"context"
+	"encoding/json"
+	"fmt"
+	"go/ast"
+	"go/types"
+	"math/rand"
+	"os"
+	"os/exec"
+	"path/filepath"
+	"sort"
+	"strconv"
+	"strings"
+	"time"
+)
 
 type replayInfo struct{}
 
-// replayViolation tries to confirm a sat obligation on the real code. It returns the replay file and
+type replayOutcome struct {
+	file string
+	ok   bool
+}
+
+var replayMemo = map[string]replayOutcome{}
+
+// cval is a concrete value of a Go type.
+type cval struct {
+	t      types.Type
+	kind   string // int bool string struct slice ptr nil opaque
+	i      int64
+	b      bool
+	s      string
+	fields []*cval // struct: one per field (nil = unsupported field, left zero)
+	elems  []*cval
+	elem   *cval // ptr pointee
+}
+
+type replayParam struct {
+	name string
+	t    types.Type
+	recv bool
+}
+
+type replayCtx struct {
+	prog   *Program
+	fc     *FuncContract
+	cl     *Clause
+	e      *Exec // fresh executor used for the ground check
+	st     *State
+	env    *cenv
+	params []replayParam
+	ins    map[string]Val
+	outs   []Val
+	sig    *types.Signature
+	pkg    *types.Package
+	node   ast.Node
+	goal   Term
+	pre    Term
+	qual   types.Qualifier
+	refN   int
+}
+
+func supportedScalar(t types.Type) bool {
+	b, ok := t.Underlying().(*types.Basic)
+	return ok && b.Info()&(types.IsBoolean|types.IsInteger|types.IsString) != 0
+}
+
+// replayable reports whether values of t can be built, printed and encoded.
+func replayable(t types.Type, depth int) bool {
+	if depth > 3 {
+		return false
+	}
+	switch u := t.Underlying().(type) {
+	case *types.Basic:
+		return supportedScalar(t)
+	case *types.Struct:
+		if n, ok := types.Unalias(t).(*types.Named); ok && n.Obj().Pkg() != nil && !strings.Contains(n.Obj().Pkg().Path(), "thought-machine/please") {
+			return false
+		}
+		return true // unsupported fields are left zero
+	case *types.Slice:
+		return replayable(u.Elem(), depth+1)
+	case *types.Pointer:
+		_, isStruct := u.Elem().Underlying().(*types.Struct)
+		return isStruct && replayable(u.Elem(), depth+1)
+	}
+	return false
+}
+
+func fieldReplayable(t types.Type) bool {
+	switch u := t.Underlying().(type) {
+	case *types.Basic:
+		return supportedScalar(t)
+	case *types.Slice:
+		switch eu := u.Elem().Underlying().(type) {
+		case *types.Basic:
+			return supportedScalar(u.Elem())
+		case *types.Struct:
+			for i := 0; i < eu.NumFields(); i++ {
+				if !supportedScalar(eu.Field(i).Type()) {
+					return false
+				}
+			}
+			return true
+		}
+	case *types.Struct:
+		for i := 0; i < u.NumFields(); i++ {
+			if !supportedScalar(u.Field(i).Type()) {
+				return false
+			}
+		}
+		return true
+	case *types.Pointer:
+		// nil / non-nil only (e.g. target.Test != nil)
+		_, ok := u.Elem().Underlying().(*types.Struct)
+		return ok
+	}
+	return false
+}
+
+func newReplayCtx(prog *Program, fc *FuncContract, clauseName string) (*replayCtx, string) {
+	var cl *Clause
+	for _, c := range fc.Ensures {
+		if c.Name == clauseName {
+			cl = c
+		}
+	}
+	if cl == nil {
+		return nil, "clause not found"
+	}
+	node, pkg, _ := prog.findTarget(fc.Pkg, fc.Key)
+	if node == nil {
+		return nil, "function not found"
+	}
+	rc := &replayCtx{prog: prog, fc: fc, cl: cl, pkg: pkg.Types, node: node, ins: map[string]Val{}}
+	rc.qual = func(p *types.Package) string {
+		if p == pkg.Types {
+			return ""
+		}
+		return p.Name()
+	}
+	info := pkg.TypesInfo
+	var ft *ast.FuncType
+	var recvList *ast.FieldList
+	switch n := node.(type) {
+	case *ast.FuncDecl:
+		ft, recvList = n.Type, n.Recv
+		rc.sig = info.Defs[n.Name].Type().(*types.Signature)
+	default:
+		return nil, "function literals are not replayable"
+	}
+	if rc.sig.TypeParams() != nil || rc.sig.RecvTypeParams() != nil {
+		return nil, "generic functions are not replayable"
+	}
+	readOnly := fc.ModSet && len(fc.Modifies) == 0
+	add := func(id *ast.Ident, recv bool) string {
+		obj := info.Defs[id]
+		if obj == nil || id.Name == "_" {
+			return "unnamed parameter"
+		}
+		if !replayable(obj.Type(), 0) {
+			return "parameter " + id.Name + " of type " + obj.Type().String() + " is not replayable"
+		}
+		if _, isPtr := obj.Type().Underlying().(*types.Pointer); isPtr && !readOnly {
+			return "pointer parameter of a function that is not `modifies nothing`"
+		}
+		rc.params = append(rc.params, replayParam{id.Name, obj.Type(), recv})
+		return ""
+	}
+	if recvList != nil {
+		for _, f := range recvList.List {
+			for _, nm := range f.Names {
+				if why := add(nm, true); why != "" {
+					return nil, why
+				}
+			}
+		}
+	}
+	for _, f := range ft.Params.List {
+		if len(f.Names) == 0 {
+			return nil, "unnamed parameter"
+		}
+		for _, nm := range f.Names {
+			if why := add(nm, false); why != "" {
+				return nil, why
+			}
+		}
+	}
+	for i := 0; i < rc.sig.Results().Len(); i++ {
+		t := rc.sig.Results().At(i).Type()
+		if types.Identical(t, errorType()) {
+			continue
+		}
+		if _, isPtr := t.Underlying().(*types.Pointer); isPtr || !replayable(t, 0) {
+			return nil, "result type " + t.String() + " is not replayable"
+		}
+	}
+	// a fresh executor in which the clause is evaluated over input and output constants
+	short := shortName(fc.Pkg) + "." + fc.Key
+	e := newExec(prog, short)
+	fr := &callFrame{name: short, pkg: pkg, node: node, sig: rc.sig, contract: fc, top: true, closures: map[types.Object]*Closure{}}
+	e.frames = []*callFrame{fr}
+	st := &State{pc: True, vars: map[types.Object]Val{}, heaps: map[string]Term{}, ghosts: map[string]Val{}}
+	env := &cenv{vals: map[string]Val{}, pkgPath: fc.Pkg}
+	failed := ""
+	func() {
+		defer func() {
+			if r := recover(); r != nil {
+				if u, ok := r.(unsupported); ok {
+					failed = u.msg
+					return
+				}
+				panic(r)
+			}
+		}()
+		for _, p := range rc.params {
+			s := e.sr.sortOf(p.t)
+			v := Val{T: e.sc.Const("in:"+p.name, s), GT: p.t}
+			env.vals[p.name] = v
+			rc.ins[p.name] = v
+		}
+		e.assertAxioms(fc.Pkg, nil)
+		pre := True
+		for _, r := range fc.Requires {
+			pre = And(pre, e.evContract(st, r.Expr, env))
+		}
+		rc.pre = pre
+		old := st.clone()
+		oldStates[fr] = old
+		env.old = old
+		var res Val
+		n := rc.sig.Results().Len()
+		var outs []Val
+		for i := 0; i < n; i++ {
+			t := rc.sig.Results().At(i).Type()
+			outs = append(outs, Val{T: e.sc.Const(fmt.Sprintf("out:%d", i), e.sr.sortOf(t)), GT: t})
+		}
+		rc.outs = outs
+		switch n {
+		case 0:
+		case 1:
+			res = outs[0]
+		default:
+			res = Val{Tuple: outs}
+		}
+		if n > 0 {
+			bindResults(env, rc.sig, res)
+		}
+		rc.goal = e.evContract(st, cl.Expr, env)
+	}()
+	if failed != "" {
+		return nil, "clause cannot be evaluated standalone: " + failed
+	}
+	rc.e, rc.st, rc.env = e, st, env
+	return rc, ""
+}
+
+// ---------------------------------------------------------------------------------------
+// concrete values: enumeration
+
+var enumStrings = []string{"", "a", "b", "ab", "a/b", "a/", "/", ".", "..", "...", "all", "test", "a*", "*", "_a#b", "ab/c", "abc", "=", "a b"}
+
+func (rc *replayCtx) enumVal(t types.Type, rng *rand.Rand, depth int, pool []string) *cval {
+	switch u := t.Underlying().(type) {
+	case *types.Basic:
+		switch {
+		case u.Info()&types.IsBoolean != 0:
+			return &cval{t: t, kind: "bool", b: rng.Intn(2) == 0}
+		case u.Info()&types.IsString != 0:
+			return &cval{t: t, kind: "string", s: pool[rng.Intn(len(pool))]}
+		case u.Info()&types.IsInteger != 0:
+			vals := []int64{0, 1, 2, 3, 5, 27, 28, 29, 43, 44, 45, -1}
+			v := vals[rng.Intn(len(vals))]
+			if u.Info()&types.IsUnsigned != 0 && v < 0 {
+				v = 0
+			}
+			if u.Kind() == types.Uint8 {
+				v = v % 4
+			}
+			return &cval{t: t, kind: "int", i: v}
+		}
+	case *types.Struct:
+		c := &cval{t: t, kind: "struct"}
+		for i := 0; i < u.NumFields(); i++ {
+			ft := u.Field(i).Type()
+			if depth < 3 && fieldReplayable(ft) {
+				if _, isPtr := ft.Underlying().(*types.Pointer); isPtr {
+					if rng.Intn(2) == 0 {
+						c.fields = append(c.fields, &cval{t: ft, kind: "nil"})
+					} else {
+						c.fields = append(c.fields, &cval{t: ft, kind: "ptr", elem: &cval{t: ft.Underlying().(*types.Pointer).Elem(), kind: "opaque"}})
+					}
+					continue
+				}
+				c.fields = append(c.fields, rc.enumVal(ft, rng, depth+1, pool))
+			} else {
+				c.fields = append(c.fields, nil)
+			}
+		}
+		return c
+	case *types.Slice:
+		n := rng.Intn(3)
+		c := &cval{t: t, kind: "slice"}
+		for i := 0; i < n; i++ {
+			c.elems = append(c.elems, rc.enumVal(u.Elem(), rng, depth+1, pool))
+		}
+		return c
+	case *types.Pointer:
+		return &cval{t: t, kind: "ptr", elem: rc.enumVal(u.Elem(), rng, depth+1, pool)}
+	}
+	return &cval{t: t, kind: "opaque"}
+}
+
+// stringPool collects string constants from the function and its contract: they steer the enumeration.
+func (rc *replayCtx) stringPool() []string {
+	seen := map[string]bool{}
+	pool := append([]string{}, enumStrings...)
+	for _, s := range pool {
+		seen[s] = true
+	}
+	add := func(s string) {
+		if !seen[s] && len(s) <= 12 {
+			seen[s] = true
+			pool = append(pool, s)
+		}
+	}
+	ast.Inspect(rc.node, func(n ast.Node) bool {
+		if bl, ok := n.(*ast.BasicLit); ok && bl.Kind.String() == "STRING" {
+			if s, err := strconv.Unquote(bl.Value); err == nil {
+				add(s)
+				add("a" + s)
+				add(s + "a")
+				add("a" + s + "b")
+			}
+		}
+		return true
+	})
+	return pool
+}
+
+// ---------------------------------------------------------------------------------------
+// concrete values: Go literals and SMT terms
+
+func (c *cval) goLit(q types.Qualifier) string {
+	if c == nil {
+		return ""
+	}
+	ts := types.TypeString(c.t, q)
+	switch c.kind {
+	case "bool":
+		return fmt.Sprintf("%s(%v)", ts, c.b)
+	case "int":
+		return fmt.Sprintf("%s(%d)", ts, c.i)
+	case "string":
+		return fmt.Sprintf("%s(%s)", ts, strconv.Quote(c.s))
+	case "nil":
+		return "nil"
+	case "struct":
+		st := c.t.Underlying().(*types.Struct)
+		var parts []string
+		for i, f := range c.fields {
+			if f != nil {
+				parts = append(parts, st.Field(i).Name()+": "+f.goLit(q))
+			}
+		}
+		return ts + "{" + strings.Join(parts, ", ") + "}"
+	case "slice":
+		var parts []string
+		for _, el := range c.elems {
+			parts = append(parts, el.goLit(q))
+		}
+		if len(parts) == 0 {
+			return ts + "{}"
+		}
+		return ts + "{" + strings.Join(parts, ", ") + "}"
+	case "ptr":
+		if c.elem.kind == "opaque" {
+			return "new(" + types.TypeString(c.elem.t, q) + ")"
+		}
+		return "&" + c.elem.goLit(q)
+	}
+	return "*new(" + ts + ")"
+}
+
+// smtTerm encodes the value; pointers become reference ids whose pointees are returned as heap facts.
+func (rc *replayCtx) smtTerm(c *cval, heapFacts *[]Term) Term {
+	e := rc.e
+	s := e.sr.sortOf(c.t)
+	switch c.kind {
+	case "bool":
+		return BoolLit(c.b)
+	case "int":
+		return IntLit(c.i)
+	case "string":
+		return StrLit(c.s)
+	case "nil":
+		return IntLit(0)
+	case "struct":
+		si := e.sr.structInfoOf(s)
+		if si == nil {
+			return e.zeroOfSort(s, c.t)
+		}
+		args := make([]Term, len(si.Fields))
+		for i, f := range si.Fields {
+			if i < len(c.fields) && c.fields[i] != nil {
+				args[i] = rc.smtTerm(c.fields[i], heapFacts)
+			} else {
+				args[i] = e.zeroOfSort(f.Sort, f.GT)
+			}
+		}
+		return si.mk(args)
+	case "slice":
+		el := slcElem(s)
+		var et types.Type
+		if sl, ok := c.t.Underlying().(*types.Slice); ok {
+			et = sl.Elem()
+		}
+		arr := e.constArray(SInt, el, et)
+		for i, x := range c.elems {
+			arr = Store(arr, IntLit(int64(i)), rc.smtTerm(x, heapFacts))
+		}
+		return MkSlc(el, arr, IntLit(int64(len(c.elems))), True)
+	case "ptr":
+		rc.refN++
+		ref := IntLit(int64(rc.refN))
+		if c.elem.kind != "opaque" {
+			hn, hs := e.ptrHeap(c.elem.t)
+			h := e.heapRead(rc.st, hn, hs)
+			*heapFacts = append(*heapFacts, Eq(Select(h, ref), rc.smtTerm(c.elem, heapFacts)))
+		}
+		return ref
+	}
+	return e.zeroOfSort(s, c.t)
+}
+
+// ---------------------------------------------------------------------------------------
+// test generation
+
+func (rc *replayCtx) printer(b *strings.Builder, expr string, t types.Type, depth int) bool {
+	e := rc.e
+	switch u := t.Underlying().(type) {
+	case *types.Basic:
+		switch {
+		case u.Info()&types.IsBoolean != 0:
+			fmt.Fprintf(b, "\tif %s { w.WriteString(\"true\") } else { w.WriteString(\"false\") }\n", expr)
+		case u.Info()&types.IsString != 0:
+			fmt.Fprintf(b, "\tw.WriteString(verifSmtStr(string(%s)))\n", expr)
+		case u.Info()&types.IsInteger != 0:
+			fmt.Fprintf(b, "\tw.WriteString(verifSmtInt(int64(%s)))\n", expr)
+		default:
+			return false
+		}
+		return true
+	case *types.Interface:
+		if types.Identical(t, errorType()) {
+			fmt.Fprintf(b, "\tif %s == nil { w.WriteString(\"0\") } else { w.WriteString(\"1\") }\n", expr)
+			return true
+		}
+		return false
+	case *types.Struct:
+		s := e.sr.sortOf(t)
+		si := e.sr.structInfoOf(s)
+		if si == nil || depth > 3 {
+			return false
+		}
+		if len(si.Fields) == 0 {
+			fmt.Fprintf(b, "\tw.WriteString(%q)\n", si.Ctor)
+			return true
+		}
+		fmt.Fprintf(b, "\tw.WriteString(%q)\n", "("+si.Ctor)
+		for i, f := range si.Fields {
+			fmt.Fprintf(b, "\tw.WriteString(\" \")\n")
+			if !rc.printer(b, expr+"."+f.Name, u.Field(i).Type(), depth+1) {
+				// unsupported field: its zero term
+				fmt.Fprintf(b, "\tw.WriteString(%q)\n", e.zeroOfSort(f.Sort, f.GT).S)
+			}
+		}
+		fmt.Fprintf(b, "\tw.WriteString(\")\")\n")
+		return true
+	case *types.Slice:
+		s := e.sr.sortOf(t)
+		el := slcElem(s)
+		zero := e.constArray(SInt, el, u.Elem()).S
+		v := fmt.Sprintf("v%d", depth)
+		fmt.Fprintf(b, "\t{\n\tarr := %q\n\tfor i, %s := range %s {\n\t_ = %s\n\tvar w2 strings.Builder\n\t{\n\tw := &w2\n", zero, v, expr, v)
+		if !rc.printer(b, v, u.Elem(), depth+1) {
+			return false
+		}
+		fmt.Fprintf(b, "\t}\n\tarr = \"(store \" + arr + \" \" + verifSmtInt(int64(i)) + \" \" + w2.String() + \")\"\n\t}\n")
+		fmt.Fprintf(b, "\tnn := \"true\"\n\tif %s == nil { nn = \"false\" }\n", expr)
+		fmt.Fprintf(b, "\tw.WriteString(\"((as mk_slc %s) \" + arr + \" \" + verifSmtInt(int64(len(%s))) + \" \" + nn + \")\")\n\t}\n", s, expr)
+		return true
+	}
+	return false
+}
+
+func (rc *replayCtx) testSource(cases [][]*cval) (string, bool) {
+	var b strings.Builder
+	fmt.Fprintf(&b, "package %s\n\nimport (\n\t\"fmt\"\n\t\"os\"\n\t\"strings\"\n\t\"testing\"\n)\n\n", rc.pkg.Name())
+	b.WriteString(`func verifSmtStr(s string) string {
+	var b strings.Builder
+	b.WriteByte('"')
+	for i := 0; i < len(s); i++ {
+		c := s[i]
+		switch {
+		case c == '"':
+			b.WriteString("\"\"")
+		case c == '\\':
+			b.WriteString("\\u{5c}")
+		case c >= 0x20 && c < 0x7f:
+			b.WriteByte(c)
+		default:
+			fmt.Fprintf(&b, "\\u{%x}", c)
+		}
+	}
+	b.WriteByte('"')
+	return b.String()
+}
+
+func verifSmtInt(i int64) string {
+	if i < 0 {
+		return fmt.Sprintf("(- %d)", -i)
+	}
+	return fmt.Sprintf("%d", i)
+}
+
+var _ = os.Stdout
+
+`)
+	fd := rc.node.(*ast.FuncDecl)
+	fmt.Fprintf(&b, "func TestVerifReplay(t *testing.T) {\n")
+	for ci, c := range cases {
+		fmt.Fprintf(&b, "\tfunc() {\n\tvar w = &strings.Builder{}\n\tdefer func() {\n\t\tif r := recover(); r != nil {\n\t\t\tfmt.Printf(\"VERIF-CASE %d PANIC %%v\\n\", r)\n\t\t}\n\t}()\n", ci)
+		var args []string
+		recv := ""
+		for pi, p := range rc.params {
+			fmt.Fprintf(&b, "\tp%d := %s\n", pi, c[pi].goLit(rc.qual))
+			if p.recv {
+				recv = fmt.Sprintf("p%d", pi)
+			} else {
+				args = append(args, fmt.Sprintf("p%d", pi))
+			}
+		}
+		call := fd.Name.Name + "(" + strings.Join(args, ", ") + ")"
+		if recv != "" {
+			call = recv + "." + call
+		}
+		n := rc.sig.Results().Len()
+		if n == 0 {
+			fmt.Fprintf(&b, "\t%s\n", call)
+		} else {
+			var rs []string
+			for i := 0; i < n; i++ {
+				rs = append(rs, fmt.Sprintf("r%d", i))
+			}
+			fmt.Fprintf(&b, "\t%s := %s\n", strings.Join(rs, ", "), call)
+			for i := 0; i < n; i++ {
+				if i > 0 {
+					fmt.Fprintf(&b, "\tw.WriteString(\" ;; \")\n")
+				}
+				if !rc.printer(&b, rs[i], rc.sig.Results().At(i).Type(), 0) {
+					return "", false
+				}
+			}
+		}
+		fmt.Fprintf(&b, "\tfmt.Printf(\"VERIF-CASE %d OK %%s\\n\", w.String())\n\t}()\n", ci)
+	}
+	fmt.Fprintf(&b, "}\n")
+	return b.String(), true
+}
+
+// runTest runs the injected test through an overlay and returns the VERIF-CASE lines.
+func (rc *replayCtx) runTest(repo, workDir, src string) (map[int]string, string) {
+	os.MkdirAll(workDir, 0o755)
+	pkgDir := filepath.Join(repo, strings.TrimPrefix(rc.fc.Pkg, modulePath+"/"))
+	testFile := filepath.Join(workDir, "zz_verif_replay_test.go")
+	if err := os.WriteFile(testFile, []byte(src), 0o644); err != nil {
+		return nil, err.Error()
+	}
+	replace := map[string]string{filepath.Join(pkgDir, "zz_verif_replay_test.go"): testFile}
+	// mask the package's own test files: some have a TestMain that only works under plz
+	if ents, err := os.ReadDir(pkgDir); err == nil {
+		for _, en := range ents {
+			if strings.HasSuffix(en.Name(), "_test.go") {
+				replace[filepath.Join(pkgDir, en.Name())] = ""
+			}
+		}
+	}
+	ov, _ := json.Marshal(map[string]any{"Replace": replace})
+	ovFile := filepath.Join(workDir, "overlay.json")
+	os.WriteFile(ovFile, ov, 0o644)
+	ctx, cancel := context.WithTimeout(context.Background(), 180*time.Second)
+	defer cancel()
+	rel := "./" + strings.TrimPrefix(rc.fc.Pkg, modulePath+"/")
+	cmd := exec.CommandContext(ctx, "go", "test", "-overlay", ovFile, "-vet=off", "-count=1", "-timeout", "60s", "-v", "-run", "^TestVerifReplay$", rel)
+	cmd.Dir = repo
+	var out bytes.Buffer
+	cmd.Stdout = &out
+	cmd.Stderr = &out
+	cmd.Run()
+	res := map[int]string{}
+	for _, l := range strings.Split(out.String(), "\n") {
+		if strings.HasPrefix(l, "VERIF-CASE ") {
+			f := strings.SplitN(l, " ", 4)
+			if len(f) >= 3 {
+				n, _ := strconv.Atoi(f[1])
+				rest := ""
+				if len(f) == 4 {
+					rest = f[3]
+				}
+				res[n] = f[2] + " " + rest
+			}
+		}
+	}
+	return res, out.String()
+}
+
+// groundCheck asks the solver whether the clause is false on (inputs, observed outputs).
+func (rc *replayCtx) groundCheck(dir, name string, c []*cval, observed string, idx int) (bool, string) {
+	var facts []Term
+	rc.refN = 0
+	for pi, p := range rc.params {
+		facts = append(facts, Eq(rc.ins[p.name].T, rc.smtTerm(c[pi], &facts)))
+	}
+	parts := strings.Split(observed, " ;; ")
+	if len(parts) != len(rc.outs) {
+		return false, "output arity mismatch"
+	}
+	for i, o := range rc.outs {
+		facts = append(facts, Eq(o.T, T(o.T.Sort, strings.TrimSpace(parts[i]))))
+	}
+	nd, na := rc.e.sc.Mark()
+	// precondition holds and the clause is false?
+	q := rc.e.sc.Query(nd, na, append(facts, rc.pre, Not(rc.goal)), nil)
+	r := Solve(dir, fmt.Sprintf("%s-ground-%d", name, idx), q, 10, false, 0)
+	return r.Status == "sat", r.Status
+}
+
+// replayViolation tries to confirm a failed obligation on the real code. It returns the replay file and
 // whether a concrete failing input was confirmed.
 func replayViolation(dir, prop string, r *oblResult, repo, verif string) (string, bool) {
-	file := writeReplay(dir, prop, r, repo, verif, "obligation refuted by the solver (model attached)")
+	reason := "obligation refuted by the solver (model attached)"
+	if r.R.Status != "sat" {
+		reason = "claimed obligation no longer discharges: " + r.R.Status
+	}
+	file := writeReplay(dir, prop, r, repo, verif, reason)
+	if r.Fn.Contract == nil || r.Fn.Prog == nil {
+		return file, false
+	}
+	if r.O.Kind != "post" {
+		// An invariant, call-site or frame obligation failed: the function's postconditions are then
+		// tried on the real code (a broken invariant normally shows as a wrong result for some input).
+		for _, en := range r.Fn.Contract.Ensures {
+			if !hasProp(en.Props, prop) {
+				continue
+			}
+			sub := &oblResult{O: &Obligation{Name: r.Fn.Name + "#post:" + en.Name, Kind: "post", Clause: en.Src, Pos: r.O.Pos}, R: SolveResult{Status: "via " + r.O.Name}, Fn: r.Fn}
+			key := prop + "|" + sub.O.Name
+			res, done := replayMemo[key]
+			if !done {
+				f2, ok := replayViolation(dir, prop, sub, repo, verif)
+				res = replayOutcome{f2, ok}
+				replayMemo[key] = res
+			}
+			if res.ok {
+				// attach the confirmed replay to this obligation's file
+				if b, err := os.ReadFile(res.file); err == nil {
+					var m2, m map[string]any
+					if json.Unmarshal(b, &m2) == nil {
+						if b1, err := os.ReadFile(file); err == nil && json.Unmarshal(b1, &m) == nil {
+							m["replay"] = m2["replay"]
+							m["replay_via_clause"] = en.Name
+							nb, _ := json.MarshalIndent(m, "", " ")
+							os.WriteFile(file, nb, 0o644)
+						}
+					}
+				}
+				return file, true
+			}
+		}
+		return file, false
+	}
+	i := strings.Index(r.O.Name, "#post:")
+	if i < 0 {
+		return file, false
+	}
+	rc, why := newReplayCtx(r.Fn.Prog, r.Fn.Contract, r.O.Name[i+6:])
+	note := map[string]any{}
+	amend := func() {
+		b, err := os.ReadFile(file)
+		if err != nil {
+			return
+		}
+		var m map[string]any
+		if json.Unmarshal(b, &m) != nil {
+			return
+		}
+		m["replay"] = note
+		nb, _ := json.MarshalIndent(m, "", " ")
+		os.WriteFile(file, nb, 0o644)
+	}
+	if rc == nil {
+		note["status"] = "not replayable: " + why
+		amend()
+		return file, false
+	}
+	seed := int64(1)
+	if s := os.Getenv("VERIF_SEED"); s != "" {
+		if n, err := strconv.ParseInt(s, 10, 64); err == nil {
+			seed = n
+		}
+	}
+	rng := rand.New(rand.NewSource(seed))
+	pool := rc.stringPool()
+	var cases [][]*cval
+	// candidate from the solver's model, if it produced one
+	if mc := rc.fromModel(r); mc != nil {
+		cases = append(cases, mc)
+		note["model_candidate"] = true
+	}
+	for len(cases) < 160 {
+		var c []*cval
+		for _, p := range rc.params {
+			c = append(c, rc.enumVal(p.t, rng, 0, pool))
+		}
+		cases = append(cases, c)
+	}
+	src, ok := rc.testSource(cases)
+	if !ok {
+		note["status"] = "not replayable: result type cannot be printed"
+		amend()
+		return file, false
+	}
+	work := filepath.Join(verif, "out", "replay", "work-"+fileSafe(r.O.Name))
+	results, raw := rc.runTest(repo, work, src)
+	note["test_file"] = filepath.Join(work, "zz_verif_replay_test.go")
+	note["cases_run"] = len(results)
+	if len(results) == 0 {
+		note["status"] = "replay test produced no cases"
+		note["test_output"] = truncate(raw, 3000)
+		amend()
+		return file, false
+	}
+	keys := make([]int, 0, len(results))
+	for k := range results {
+		keys = append(keys, k)
+	}
+	sort.Ints(keys)
+	smtDir := filepath.Join(verif, "out", "smt", prop, "replay")
+	checked := 0
+	for _, k := range keys {
+		res := results[k]
+		if !strings.HasPrefix(res, "OK ") {
+			continue // a panic on this input: not a postcondition failure
+		}
+		checked++
+		bad, st := rc.groundCheck(smtDir, fileSafe(r.O.Name), cases[k], strings.TrimPrefix(res, "OK "), k)
+		if bad {
+			var ins []string
+			for pi, p := range rc.params {
+				ins = append(ins, p.name+" = "+cases[k][pi].goLit(rc.qual))
+			}
+			note["status"] = "confirmed on the real code"
+			note["failing_input"] = ins
+			note["observed_output"] = strings.TrimPrefix(res, "OK ")
+			note["clause"] = rc.cl.Src
+			note["from_model"] = k == 0 && note["model_candidate"] == true
+			note["ground_check"] = st
+			amend()
+			return file, true
+		}
+	}
+	note["status"] = fmt.Sprintf("no failing input among %d candidates (%d checked)", len(cases), checked)
+	amend()
 	return file, false
 }
 
-func runReplayFile(repo, verif, file string) int { return 0 }
+// fromModel turns the solver's model of a refuted obligation into a candidate input, where the model
+// values requested with the query suffice (scalars, small structs, short slices).
+func (rc *replayCtx) fromModel(r *oblResult) []*cval {
+	if r.R.Status != "sat" || len(r.R.Model) == 0 {
+		return nil
+	}
+	norm := map[string]string{}
+	for k, v := range r.R.Model {
+		norm[strings.ReplaceAll(k, "|", "")] = v
+	}
+	byLabel := map[string]string{}
+	for _, m := range r.O.Models {
+		if v, ok := norm[strings.ReplaceAll(m.Term, "|", "")]; ok {
+			byLabel[m.Label] = v
+		}
+	}
+	var build func(label string, t types.Type, depth int) *cval
+	build = func(label string, t types.Type, depth int) *cval {
+		switch u := t.Underlying().(type) {
+		case *types.Basic:
+			v, ok := byLabel[label]
+			if !ok {
+				return nil
+			}
+			switch {
+			case u.Info()&types.IsBoolean != 0:
+				return &cval{t: t, kind: "bool", b: v == "true"}
+			case u.Info()&types.IsString != 0:
+				s, ok := decodeSMTString(v)
+				if !ok {
+					return nil
+				}
+				return &cval{t: t, kind: "string", s: s}
+			case u.Info()&types.IsInteger != 0:
+				v = strings.NewReplacer("(", "", ")", "", " ", "").Replace(v)
+				n, err := strconv.ParseInt(v, 10, 64)
+				if err != nil {
+					return nil
+				}
+				return &cval{t: t, kind: "int", i: n}
+			}
+		case *types.Struct:
+			c := &cval{t: t, kind: "struct"}
+			for i := 0; i < u.NumFields(); i++ {
+				f := u.Field(i)
+				if supportedScalar(f.Type()) {
+					c.fields = append(c.fields, build(label+"."+f.Name(), f.Type(), depth+1))
+				} else {
+					c.fields = append(c.fields, nil)
+				}
+			}
+			return c
+		case *types.Slice:
+			lv, ok := byLabel[label+".len"]
+			if !ok {
+				return nil
+			}
+			n, err := strconv.Atoi(lv)
+			if err != nil || n > 4 {
+				return nil
+			}
+			c := &cval{t: t, kind: "slice"}
+			for i := 0; i < n; i++ {
+				el := build(fmt.Sprintf("%s[%d]", label, i), u.Elem(), depth+1)
+				if el == nil {
+					return nil
+				}
+				c.elems = append(c.elems, el)
+			}
+			return c
+		}
+		return nil
+	}
+	var out []*cval
+	for _, p := range rc.params {
+		c := build(p.name, p.t, 0)
+		if c == nil {
+			return nil
+		}
+		out = append(out, c)
+	}
+	return out
+}
+
+func runReplayFile(repo, verif, file string) int {
+	b, err := os.ReadFile(file)
+	if err != nil {
+		fmt.Fprintln(os.Stderr, err)
+		return 2
+	}
+	var m map[string]any
+	if json.Unmarshal(b, &m) != nil {
+		fmt.Fprintln(os.Stderr, "not a replay file")
+		return 2
+	}
+	fmt.Printf("obligation: %v\nclause: %v\nreason: %v\n", m["obligation"], m["clause"], m["reason"])
+	rp, _ := m["replay"].(map[string]any)
+	if rp == nil {
+		fmt.Println("no concrete replay recorded for this obligation (the file carries the solver output)")
+		return 1
+	}
+	fmt.Printf("replay status: %v\n", rp["status"])
+	tf, _ := rp["test_file"].(string)
+	if tf == "" || rp["failing_input"] == nil {
+		return 1
+	}
+	fmt.Printf("failing input: %v\nobserved output: %v\n", rp["failing_input"], rp["observed_output"])
+	fn, _ := m["function"].(string)
+	pkgShort := fn
+	if i := strings.Index(fn, "."); i >= 0 {
+		pkgShort = fn[:i]
+	}
+	fmt.Printf("re-run: the generated test %s is injected into package %s with go test -overlay (see overlay.json beside it)\n", tf, pkgShort)
+	ov := filepath.Join(filepath.Dir(tf), "overlay.json")
+	ob, err := os.ReadFile(ov)
+	if err != nil {
+		return 1
+	}
+	var o struct{ Replace map[string]string }
+	json.Unmarshal(ob, &o)
+	rel := ""
+	for k := range o.Replace {
+		if strings.HasSuffix(k, "zz_verif_replay_test.go") {
+			rel = "./" + strings.TrimPrefix(filepath.Dir(k), repo+"/")
+		}
+	}
+	cmd := exec.Command("go", "test", "-overlay", ov, "-vet=off", "-count=1", "-timeout", "60s", "-run", "^TestVerifReplay$", "-v", rel)
+	cmd.Dir = repo
+	out, _ := cmd.CombinedOutput()
+	for _, l := range strings.Split(string(out), "\n") {
+		if strings.HasPrefix(l, "VERIF-CASE") || strings.HasPrefix(l, "--- ") || strings.HasPrefix(l, "ok") || strings.HasPrefix(l, "FAIL") {
+			fmt.Println(truncate(l, 300))
+		}
+	}
+	return 1
+}
 
 func runSelftest(repo, verif, prop string, seed int) int { return 0 }
